@@ -163,7 +163,7 @@ func generate(r *core.Run, cfgName string, subst map[string]string) (*envTable, 
 	var table *envTable
 	var progs []*progCase
 	var mu sync.Mutex
-	res := tlcrun.MustHold(r, tlcrun.Options{Module: "JsSemGen", Config: cfgName, Workers: 8, TimeoutSec: r.Pick(600, 3000), XssMB: 256,
+	res := tlcrun.MustHold(r, tlcrun.Options{Module: "JsSemGen", Config: cfgName, Workers: 5, TimeoutSec: r.Pick(600, 3000), XssMB: 256,
 		Files: map[string]string{cfgName: cfg},
 		OnCase: func(raw []byte) {
 			var head struct {
@@ -223,7 +223,7 @@ func (t *envTable) nodeInput() nodeIn {
 	return in
 }
 
-const progChunk = 40
+const progChunk = 100
 
 type chunkWork struct {
 	ps    []*progCase
@@ -301,10 +301,14 @@ func programBinding(r *core.Run, cfgName string) {
 			for _, row := range p.Rows {
 				want = append(want, row[0]*table.Q+row[1])
 			}
-			j.Units = append(j.Units, unit{ID: p.id, Call: fmt.Sprintf("main%d(__env.a, __env.b)", k), EnvSet: "q", Want: want})
+			j.Units = append(j.Units, unit{ID: p.id, Call: fmt.Sprintf("main%d(__env.a, __env.b)", k), EnvSet: "q", Want: want,
+				NoG: !strings.Contains(p.fn, "G"), NoO: !strings.Contains(p.fn, "o.") && !strings.Contains(p.fn, "o[") && !strings.Contains(p.fn, "o?")})
 		}
 		w.plain, _ = transform(src, api.LoaderJS, false, false, false, false, nil)
 		for vi, v := range variants {
+			if v.bundle && !r.Thorough() && ci%4 != 0 {
+				continue // quick: api.Build for a subset of the chunks
+			}
 			out, err := build(src, v)
 			if err != nil {
 				mu.Lock()
@@ -456,27 +460,31 @@ func confirmMismatches(r *core.Run, table *envTable, pends []pend) {
 	done := map[string]bool{}
 	maxReq := r.Pick(150, 600)
 	unasked := 0
+	directRow := func(x *pend) int {
+		i0, j0 := x.m.Env/table.Q, x.m.Env%table.Q
+		for ri, row := range x.p.Rows {
+			if row[0] == i0 && row[1] == j0 {
+				return ri
+			}
+		}
+		return -1
+	}
+	// first the mismatches in rows the generator already evaluated
 	for i := range pends {
 		x := &pends[i]
 		key := x.p.id + "/" + x.v.name
-		if done[key] {
-			continue
+		if d := directRow(x); d >= 0 && !done[key] && x.p.Expect[d].C != "unk" {
+			done[key] = true
+			x.report(r, table, x.p.Expect[d].canonical())
+		}
+	}
+	for i := range pends {
+		x := &pends[i]
+		key := x.p.id + "/" + x.v.name
+		if done[key] || directRow(x) >= 0 {
+			continue // reported, or judged by V8 only in that row (no second witness)
 		}
 		i0, j0 := x.m.Env/table.Q, x.m.Env%table.Q
-		direct := -1
-		for ri, row := range x.p.Rows {
-			if row[0] == i0 && row[1] == j0 {
-				direct = ri
-			}
-		}
-		if direct >= 0 {
-			if x.p.Expect[direct].C == "unk" {
-				continue // judged by V8 only: not reported without the second witness
-			}
-			done[key] = true
-			x.report(r, table, x.p.Expect[direct].canonical())
-			continue
-		}
 		if len(reqs) >= maxReq {
 			unasked++
 			continue
